@@ -180,6 +180,7 @@ func loadNonEmpty(ld *ssa.UnOp, depth int) bool {
 
 func runC46(c *Ctx) {
 	c46SvcTables(c)
+	c46HostVerbatim(c)
 	ap := "pkg/addr."
 	pkg := c.Prog.SSAPkgs[modPath+"/pkg/addr"]
 	// P1
